@@ -18,7 +18,9 @@ HOSTILE += ['Government consumption of goods and services, which this version of
 HOSTILE_NOMARK = [h for h in HOSTILE if 'exogenous' not in h.lower()]
 MALFORMED = ['just some words', 'a = b = c', 'LL = {v}(k-1) + 1', 'LL = 2*{v}(k-1)', 'LL = {v}(t-1) - {v}',
              'LL = 0.5 *{v} (k -1 )', 'LL = {v} (k -1 ) + 1', 'LL = {v} (k -1 )*{v} (k -1 )', 'LL = 1 + {v}(t-1)',
-             'x ==', 'no equals sign here 3 + 4']
+             'x ==', 'no equals sign here 3 + 4',
+             # a single character after the lag
+             'LL = {v}(k-1)2', 'LL = {v}(k-1)y', 'LL = {v}(t-1))', 'LL = {v}(k-1)*', 'LL = {v} (k -1 )1']
 
 
 def vals_for(names, rng):
